@@ -113,6 +113,10 @@ def build_value(v, env):
         return {build_value(x, env) for x in v[1]}
     if k == "dict":
         return {build_value(a, env): build_value(b, env) for a, b in v[1]}
+    if k == "mproxy":
+        import types
+
+        return types.MappingProxyType({build_value(a, env): build_value(b, env) for a, b in v[1]})
     if k == "clsobj":
         return env[v[1]]
     if k == "genobj":
@@ -208,6 +212,8 @@ def build_ann(s, env, spelling=None, preds=None):
         if cache is not None:
             cache[key] = d
         return d
+    if k == "rebound":  # Dependent[<narrower bound>, <parametrised value type>]: same check, another bound
+        return Dependent[env[s[1]], build_ann(s[2], env, None, preds)]
     if k == "tup":
         items = tuple(build_ann(x, env, None, preds) for x in s[1])
         return tuple[items] if items else tuple[()]
@@ -248,7 +254,7 @@ def build_ann(s, env, spelling=None, preds=None):
 def is_dependent_spec(s):
     k = s[0]
     if k in ("lit", "dep", "tup", "listof", "seqof", "collof", "mapof", "dictof", "regexp",
-             "startswith", "endswith", "haskey"):
+             "startswith", "endswith", "haskey", "rebound"):
         return True
     if k in ("union", "inter"):
         return any(is_dependent_spec(x) for x in s[1])
@@ -302,6 +308,10 @@ def accepts(s, value, env):
         if any(isinstance(value, type(v)) for v in eq):
             return True
         return None  # equal value of a foreign type (1.0 vs Literal[1]): unspecified
+    if k == "rebound":
+        if not isinstance(value, env[s[1]]):
+            return False
+        return accepts(s[2], value, env)
     if k == "dep":
         b = accepts(s[1], value, env)
         if b is not True:
